@@ -7,7 +7,7 @@ import (
 	"go/constant"
 	"go/token"
 	"go/types"
-	"sort"
+	"os"
 	"strings"
 
 	"golang.org/x/tools/go/ssa"
@@ -27,7 +27,8 @@ const (
 
 type loopCtr struct {
 	h    *ssa.BasicBlock
-	iter int
+	iter int // iterations on this path (kept across transitions for loops that may allocate)
+	unw  int // iterations within the current transition (unwinding bound)
 }
 
 type DeferRec struct {
@@ -56,6 +57,9 @@ type Frame struct {
 	deferred bool // this frame runs a deferred call of the frame below
 	callPos  string
 	pending  *DeferRec // deferred call being executed by this frame (model/builtin targets rest here)
+	opTag    string    // identity of the concretized operand of the visible op at (opTagBlk, opTagIdx)
+	opTagBlk int
+	opTagIdx int
 	onReturn func(e *Engine, c *Config, res Value)
 	onUnwind func(e *Engine, c *Config)
 }
@@ -64,12 +68,13 @@ type Config struct {
 	g      *Term
 	gor    *Gor
 	stack  []*Frame
-	counts map[string]int
 	phase  int
 	fuel   bool
 	held   map[*Cell]*Term // ghost lockset: mutex cell -> BV2 mode (0 none, 1 read, 2 write)
 	done   bool
 	atomic int // >0: inside verifAtomic (visible ops run inline)
+	ok     []int
+	mk     string
 }
 
 type Gor struct {
@@ -124,19 +129,32 @@ type Engine struct {
 	guardViol   []Obl
 
 	// transition-local
-	work    []*Config
-	step    int
-	cur     *Gor
-	foot    *Footprint
-	loopsOf map[*ssa.Function]*loopInfo
-	rpoOf   map[*ssa.Function]map[*ssa.BasicBlock]int
-	ctxs    []*CtxObj
-	afters  []*AfterReg
-	obsLog  []ObsRec
-	choiceN int
-	stepMax int
-	noPOR   bool
-	randLog []RandRec
+	work          []*Config
+	step          int
+	cur           *Gor
+	foot          *Footprint
+	loopsOf       map[*ssa.Function]*loopInfo
+	rpoOf         map[*ssa.Function]map[*ssa.BasicBlock]int
+	ctxs          []*CtxObj
+	afters        []*AfterReg
+	obsLog        []ObsRec
+	choiceN       int
+	stepMax       int
+	noPOR         bool
+	randLog       []RandRec
+	trace         bool
+	maxSlice      int
+	feas          *Solver
+	feasN         int
+	feasCut       int
+	feasMs        int64
+	feasMemo      map[int]bool
+	noFeas        bool
+	loopAllocMemo map[string]bool
+	fnAllocMemo   map[*ssa.Function]bool
+	dumped        bool
+	eager         map[string]bool
+	lazyPanics    []Obl
 }
 
 type ObsRec struct {
@@ -151,7 +169,7 @@ func NewEngine(l *Loaded) *Engine {
 		reaches: map[string]*Term{}, unwindFail: TS.False, blocked: TS.False, nondets: map[string]*Term{},
 		funcsSeen: map[string]int{}, stubsSeen: map[string]int{}, loopsOf: map[*ssa.Function]*loopInfo{},
 		rpoOf: map[*ssa.Function]map[*ssa.BasicBlock]int{}, unwindWhere: map[string]bool{}, blockedAt: map[string]bool{},
-		stepMax: 4000000}
+		stepMax: 4000000, maxSlice: 8, loopAllocMemo: map[string]bool{}, fnAllocMemo: map[*ssa.Function]bool{}}
 	return e
 }
 
@@ -266,38 +284,33 @@ func (e *Engine) mergeKey(c *Config) string {
 		if f.pending != nil {
 			fmt.Fprintf(&sb, "P%d", f.pending.Pos)
 		}
+		if f.opTag != "" && f.opTagBlk == f.blk.Index && f.opTagIdx == f.idx {
+			sb.WriteString("T" + f.opTag)
+		}
 		sb.WriteString("|")
 	}
 	fmt.Fprintf(&sb, "ph%d.a%d", c.phase, c.atomic)
-	if len(c.counts) > 0 {
-		ks := make([]string, 0, len(c.counts))
-		for k := range c.counts {
-			ks = append(ks, k)
-		}
-		sort.Strings(ks)
-		for _, k := range ks {
-			fmt.Fprintf(&sb, ";%s=%d", k, c.counts[k])
-		}
-	}
 	return sb.String()
 }
 
-// siteKey: static position (stack of call sites) used for deterministic naming.
+// siteKey: dynamic position (stack of call sites with the iteration counters of the enclosing
+// loops) used for deterministic naming of objects and goroutines. Two executions of the same site by
+// one goroutine on one path are separated by a back edge of an enclosing loop, whose counter is kept
+// across transitions for every loop that may allocate (see resetAtRest).
 func (e *Engine) siteKey(c *Config) string {
 	var sb strings.Builder
 	for _, f := range c.stack {
-		fmt.Fprintf(&sb, "%s.%d.%d/", f.fn.String(), f.blk.Index, f.idx)
+		fmt.Fprintf(&sb, "%s.%d.%d", f.fn.String(), f.blk.Index, f.idx)
+		for _, l := range f.loops {
+			fmt.Fprintf(&sb, "~%d.%d", l.h.Index, l.iter)
+		}
+		sb.WriteString("/")
 	}
 	return sb.String()
 }
 
 func (e *Engine) dynName(c *Config, kind string) string {
-	sk := kind + "@" + e.siteKey(c)
-	if c.counts == nil {
-		c.counts = map[string]int{}
-	}
-	c.counts[sk]++
-	return fmt.Sprintf("%s#%d[g%d]", sk, c.counts[sk], c.gor.idx)
+	return fmt.Sprintf("%s@%s[g%d]", kind, e.siteKey(c), c.gor.idx)
 }
 
 // ---------------- config helpers ----------------
@@ -318,12 +331,6 @@ func (c *Config) clone() *Config {
 	n.stack = make([]*Frame, len(c.stack))
 	for i, f := range c.stack {
 		n.stack[i] = f.clone()
-	}
-	if c.counts != nil {
-		n.counts = make(map[string]int, len(c.counts))
-		for k, v := range c.counts {
-			n.counts[k] = v
-		}
 	}
 	if c.held != nil {
 		n.held = make(map[*Cell]*Term, len(c.held))
@@ -418,6 +425,8 @@ func (e *Engine) enqueue(c *Config) {
 	if c.g.IsFalse() {
 		return
 	}
+	c.ok = e.orderKey(c)
+	c.mk = e.mergeKey(c)
 	e.work = append(e.work, c)
 }
 
@@ -608,27 +617,42 @@ func (e *Engine) runWork(rest func(c *Config)) {
 	for len(e.work) > 0 {
 		// pick minimal order key; merge equal merge keys
 		best := 0
-		bk := e.orderKey(e.work[0])
+		for i := range e.work {
+			if e.work[i].ok == nil {
+				e.work[i].ok = e.orderKey(e.work[i])
+				e.work[i].mk = e.mergeKey(e.work[i])
+			}
+		}
+		bk := e.work[0].ok
 		for i := 1; i < len(e.work); i++ {
-			k := e.orderKey(e.work[i])
-			if lessKey(k, bk) {
-				best, bk = i, k
+			if lessKey(e.work[i].ok, bk) {
+				best, bk = i, e.work[i].ok
 			}
 		}
 		c := e.work[best]
 		e.work[best] = e.work[len(e.work)-1]
 		e.work = e.work[:len(e.work)-1]
 		if len(c.stack) > 0 {
-			mk := e.mergeKey(c)
 			for i := 0; i < len(e.work); {
 				o := e.work[i]
-				if o.gor == c.gor && len(o.stack) == len(c.stack) && e.mergeKey(o) == mk {
+				if o.gor == c.gor && len(o.stack) == len(c.stack) && o.mk == c.mk {
 					e.mergeInto(c, o)
 					e.work[i] = e.work[len(e.work)-1]
 					e.work = e.work[:len(e.work)-1]
 					continue
 				}
 				i++
+			}
+		}
+		c.ok, c.mk = nil, ""
+		if e.trace && e.instrs%2000 < 3 {
+			fmt.Fprintf(os.Stderr, "STAT instrs=%d work=%d merges=%d terms=%d lazy=%d\n", e.instrs, len(e.work), e.merges, TS.next, len(e.lazyPanics))
+			if len(e.work) > 200 && !e.dumped {
+				e.dumped = true
+				for i := 0; i < 12 && i < len(e.work); i++ {
+					w := e.work[i]
+					fmt.Fprintf(os.Stderr, "WORK %d: pos=%s key=%s\n", i, e.posOf(w), w.mk)
+				}
 			}
 		}
 		if c.g.IsFalse() {
@@ -647,6 +671,14 @@ func (e *Engine) advance(c *Config, rest func(c *Config)) {
 		e.instrs++
 		if e.instrs > e.stepMax {
 			inconclusive("instruction budget exceeded")
+		}
+		if (e.trace || e.instrs > e.stepMax-300) && len(c.stack) > 0 {
+			f := c.top()
+			is := "?"
+			if f.idx < len(f.blk.Instrs) {
+				is = f.blk.Instrs[f.idx].String()
+			}
+			fmt.Fprintf(os.Stderr, "TRACE g%d depth=%d %s b%d.%d mode=%d pend=%v | %s\n", c.gor.idx, len(c.stack), f.fn.Name(), f.blk.Index, f.idx, f.mode, f.pending != nil, is)
 		}
 		if len(c.stack) == 0 {
 			c.done = true
@@ -714,7 +746,8 @@ func (e *Engine) jump(c *Config, f *Frame, to *ssa.BasicBlock) bool {
 	if _, isHeader := li.body[to]; isHeader {
 		if len(f.loops) > 0 && f.loops[len(f.loops)-1].h == to && li.isBack[[2]int{from.Index, to.Index}] {
 			f.loops[len(f.loops)-1].iter++
-			if f.loops[len(f.loops)-1].iter > e.unwind {
+			f.loops[len(f.loops)-1].unw++
+			if f.loops[len(f.loops)-1].unw > e.unwind {
 				e.unwindFail = Or(e.unwindFail, c.g)
 				p := e.prog.Fset.Position(to.Instrs[0].Pos())
 				e.unwindWhere[fmt.Sprintf("%s (%s:%d)", f.fn, shortFile(p.Filename), p.Line)] = true
@@ -748,6 +781,16 @@ func (e *Engine) raise(c *Config, cond *Term, what string) {
 	g := And(c.g, cond)
 	if g.IsFalse() {
 		return
+	}
+	if !cond.IsTrue() && !c.top().deferred {
+		site := e.posOf(c) + " " + what
+		if !e.eager[site] {
+			// lazy: record the potential runtime panic without executing its unwinding; main re-runs
+			// the harness with this site eager if the recorded guard turns out to be satisfiable
+			e.lazyPanics = append(e.lazyPanics, Obl{ID: site, G: g, Cond: TS.False, Pos: site, Step: e.step})
+			c.g = And(c.g, Not(cond))
+			return
+		}
 	}
 	pc := c.clone()
 	pc.g = g
@@ -857,4 +900,41 @@ func (e *Engine) doReturn(c *Config, res Value) {
 		return
 	}
 	inconclusive("return to non-call instruction %v", ins)
+}
+
+// feasible asks the solver whether guard g can hold (unknown counts as feasible). Used to prune
+// panic edges and branches that are infeasible but not syntactically false.
+func (e *Engine) feasible(g *Term) bool {
+	if g.IsFalse() {
+		return false
+	}
+	if g.IsTrue() || e.noFeas {
+		return true
+	}
+	if e.feasMemo == nil {
+		e.feasMemo = map[int]bool{}
+	}
+	if v, ok := e.feasMemo[g.id]; ok {
+		return v
+	}
+	if e.feas == nil || e.feas.dead {
+		sv, err := NewSolver("z3-new", "")
+		if err != nil {
+			return true
+		}
+		sv.useTac = false
+		e.feas = sv
+	}
+	r := e.feas.Check([]*Term{g}, 2000, false)
+	e.feasN++
+	e.feasMs += r.Dur.Milliseconds()
+	res := r.Status != "unsat"
+	if !res {
+		e.feasCut++
+	}
+	e.feasMemo[g.id] = res
+	if e.trace || r.Dur.Milliseconds() > 300 {
+		fmt.Fprintf(os.Stderr, "FEAS %s %dms (n=%d)\n", r.Status, r.Dur.Milliseconds(), e.feasN)
+	}
+	return res
 }
